@@ -3,7 +3,8 @@
 //! and one method per concrete step. Implements the object-safe `WorldOps`.
 
 use crate::backend::Backend;
-use crate::elems::{decode, Elem, Wrong};
+use crate::elems::{decode, Elem, Twin, Wrong};
+use crate::simmem::SimBuilder;
 use crate::placed::Placed;
 use crate::trset::TrSet;
 use any_vec::any_value::{
@@ -965,11 +966,140 @@ pub fn push_run<E: Elem, Tr: ?Sized + TrSet, M: MemB>(v: &mut AnyVec<Tr, M>, r: 
     }
 }
 
+/// C04: offer values of a wrong runtime type (a distinct type with identical layout) at every
+/// checked entry point; downcast / report probes.
+pub fn type_probe_step<E: Elem, Tr: ?Sized + TrSet, M: MemB>(v: &mut AnyVec<Tr, M>, r: &RStep, cx: &mut Cx<E>)
+where
+    Twin<E>: SatisfyTraits<Tr>,
+{
+    let t = r.tags.first().copied().unwrap_or(0);
+    let twin_id = TypeId::of::<Twin<E>>();
+    match r.kind {
+        TP_PUSH_WRAPPER => lib(|| v.push(AnyValueWrapper::new(Twin(E::make(t))))),
+        TP_INSERT_WRAPPER => lib(|| v.insert(r.i, AnyValueWrapper::new(Twin(E::make(t))))),
+        TP_PUSH_RAW | TP_INSERT_RAW => {
+            let mut own = RawOwned::new(E::make(t));
+            let raw = unsafe { AnyValueRaw::new(own.ptr(), size_of::<E>(), twin_id) };
+            if r.kind == TP_PUSH_RAW {
+                lib(|| v.push(raw));
+            } else {
+                lib(|| v.insert(r.i, raw));
+            }
+            // only reached when the wrong type was admitted: the vector now owns the bytes
+            own.consumed = true;
+        }
+        TP_PUSH_HANDLE => {
+            // removal handle of a vector whose element type is the twin type
+            let mut tw: AnyVec<Tr, SimBuilder> = lib(|| AnyVec::new_in::<Twin<E>>(SimBuilder));
+            lib(|| tw.push(AnyValueWrapper::new(Twin(E::make(t)))));
+            let res = catch_unwind(AssertUnwindSafe(|| {
+                let h = lib(|| tw.pop()).expect("LIB: pop of a non-empty vector");
+                lib(|| v.push(h));
+            }));
+            let left = lib(|| tw.len());
+            lib(|| drop(tw));
+            cx.ev.push(Ev::Len(left));
+            if let Err(p) = res {
+                std::panic::resume_unwind(p);
+            }
+        }
+        TP_SPLICE => {
+            // n raw items, the one at position j lies about nothing: it really is of the twin type
+            let batch = RawBatch::<E>::new(&r.tags[..r.n]);
+            {
+                let j = r.j;
+                let items = batch.iter().enumerate().map(move |(k, raw)| {
+                    if k == j {
+                        unsafe { AnyValueRaw::new(NonNull::new_unchecked(raw.as_bytes_ptr() as *mut u8), size_of::<E>(), twin_id) }
+                    } else {
+                        raw
+                    }
+                });
+                let it = with_range!(r, |rg| lib(|| v.splice(rg, items)));
+                lib(|| drop(it));
+            }
+            drop(batch);
+        }
+        TP_SWAP => {
+            let mut w = AnyValueWrapper::new(Twin(E::make(t)));
+            let mut e = lib(|| v.at_mut(r.i));
+            if r.form == 0 {
+                lib(|| e.swap(&mut w));
+            } else {
+                lib(|| w.swap(&mut *e));
+            }
+        }
+        _ => {
+            // downcasts and reports
+            let mut ok = true;
+            ok &= lib(|| v.downcast_ref::<Twin<E>>()).is_none();
+            ok &= lib(|| v.downcast_mut::<Twin<E>>()).is_none();
+            ok &= lib(|| v.downcast_ref::<Wrong>()).is_none();
+            ok &= lib(|| v.downcast_ref::<E>()).is_some();
+            ok &= lib(|| v.downcast_mut::<E>()).is_some();
+            ok &= lib(|| v.element_typeid()) == TypeId::of::<E>();
+            ok &= lib(|| v.element_layout()) == std::alloc::Layout::new::<E>();
+            if lib(|| v.len()) > 0 {
+                let i = r.i;
+                {
+                    let e = lib(|| v.at(i));
+                    ok &= lib(|| e.downcast_ref::<Twin<E>>()).is_none();
+                    ok &= lib(|| e.downcast_ref::<E>()).is_some();
+                    ok &= lib(|| AnyValue::downcast_ref::<Twin<E>>(&*e)).is_none();
+                    ok &= lib(|| AnyValue::downcast_ref::<E>(&*e)).is_some();
+                    ok &= lib(|| e.value_typeid()) == TypeId::of::<E>() && lib(|| e.size()) == size_of::<E>();
+                }
+                {
+                    let mut e = lib(|| v.at_mut(i));
+                    ok &= lib(|| e.downcast_mut::<Twin<E>>()).is_none();
+                    ok &= lib(|| e.downcast_mut::<E>()).is_some();
+                    ok &= lib(|| AnyValueMut::downcast_mut::<Twin<E>>(&mut *e)).is_none();
+                    ok &= lib(|| AnyValueMut::downcast_mut::<E>(&mut *e)).is_some();
+                }
+                {
+                    // removal handle: wrong-type borrows fail, the handle stays usable and is put back
+                    let mut h = lib(|| v.remove(i));
+                    ok &= lib(|| h.downcast_ref::<Twin<E>>()).is_none();
+                    ok &= lib(|| h.downcast_mut::<Twin<E>>()).is_none();
+                    ok &= lib(|| h.downcast_ref::<E>()).is_some();
+                    ok &= lib(|| h.value_typeid()) == TypeId::of::<E>() && lib(|| h.size()) == size_of::<E>();
+                    let x = lib(|| h.downcast::<E>()).expect("LIB: downcast to the real type");
+                    lib(|| v.insert(i, AnyValueWrapper::new(x)));
+                }
+                {
+                    let mut d = lib(|| v.drain(i..i + 1));
+                    let item = lib(|| d.next()).expect("LIB: one drained element");
+                    ok &= lib(|| item.downcast_ref::<Twin<E>>()).is_none();
+                    ok &= lib(|| item.downcast_ref::<E>()).is_some();
+                    ok &= lib(|| item.value_typeid()) == TypeId::of::<E>();
+                    let x = lib(|| item.downcast::<E>()).expect("LIB: downcast to the real type");
+                    lib(|| drop(d));
+                    lib(|| v.insert(i, AnyValueWrapper::new(x)));
+                }
+            }
+            {
+                // the crate's own value types
+                let w = AnyValueWrapper::new(E::make(t));
+                ok &= lib(|| w.downcast_ref::<Twin<E>>()).is_none() && lib(|| w.downcast_ref::<E>()).is_some();
+                ok &= lib(|| w.value_typeid()) == TypeId::of::<E>() && lib(|| w.size()) == size_of::<E>();
+                ok &= lib(|| w.downcast::<Twin<E>>()).is_none();
+                let mut own = RawOwned::new(E::make(t));
+                let raw = unsafe { AnyValueRaw::new(own.ptr(), size_of::<E>(), TypeId::of::<E>()) };
+                ok &= lib(|| raw.downcast_ref::<Twin<E>>()).is_none() && lib(|| raw.downcast_ref::<E>()).is_some();
+            }
+            cx.ev.push(Ev::Bool(ok));
+        }
+    }
+}
+
 // -------------------------------------------------------------------------------------------
 // the world
 // -------------------------------------------------------------------------------------------
 
-pub struct World<E: Elem + SatisfyTraits<Tr>, Tr: ?Sized + TrSet, MA: Backend, MB: Backend> {
+pub struct World<E: Elem + SatisfyTraits<Tr>, Tr: ?Sized + TrSet, MA: Backend, MB: Backend>
+where
+    Twin<E>: SatisfyTraits<Tr>,
+{
     id: u32,
     a0: Option<Placed<AnyVec<Tr, MA>>>,
     a1: Option<Placed<AnyVec<Tr, MA>>>,
@@ -1081,7 +1211,10 @@ fn kill<T>(o: &mut Option<T>) {
     drop(x);
 }
 
-impl<E: Elem + SatisfyTraits<Tr>, Tr: ?Sized + TrSet, MA: Backend, MB: Backend> World<E, Tr, MA, MB> {
+impl<E: Elem + SatisfyTraits<Tr>, Tr: ?Sized + TrSet, MA: Backend, MB: Backend> World<E, Tr, MA, MB>
+where
+    Twin<E>: SatisfyTraits<Tr>,
+{
     pub fn new(id: u32) -> Self {
         World { id, a0: None, a1: None, b: None, pool: Vec::new(), diag: String::new(), free_place: false, poison: true, _m: PhantomData }
     }
@@ -1090,7 +1223,8 @@ impl<E: Elem + SatisfyTraits<Tr>, Tr: ?Sized + TrSet, MA: Backend, MB: Backend> 
         let free = self.free_place;
         let space = E::TAG_MOD.min(simcore::model::TAG_SPACE_MAX as u64);
         match r.op {
-            Op::Nop | Op::TypeProbe => {}
+            Op::Nop => {}
+            Op::TypeProbe => on_slot!(self, r.slot, |v, pool, diag| type_probe_step::<E, Tr, _>(v, r, &mut Cx { ev: &mut *ev, pool, diag })),
             Op::New => match r.slot {
                 0 => {
                     kill(&mut self.a0);
@@ -1402,7 +1536,10 @@ impl<E: Elem + SatisfyTraits<Tr>, Tr: ?Sized + TrSet, MA: Backend, MB: Backend> 
     }
 }
 
-impl<E: Elem + SatisfyTraits<Tr>, Tr: ?Sized + TrSet, MA: Backend, MB: Backend> WorldOps for World<E, Tr, MA, MB> {
+impl<E: Elem + SatisfyTraits<Tr>, Tr: ?Sized + TrSet, MA: Backend, MB: Backend> WorldOps for World<E, Tr, MA, MB>
+where
+    Twin<E>: SatisfyTraits<Tr>,
+{
     fn info(&self) -> WorldInfo {
         WorldInfo {
             id: self.id,
